@@ -633,4 +633,14 @@ theorem tagAccept_sound (accept : Nat) (h : accept < 16) (uncertain matching : B
   have : ∀ a : Fin 16, ∀ u m : Bool, tagAccept a.val u m = tagAcceptSpec a.val u m := by decide
   exact this ⟨accept, h⟩ uncertain matching
 
+/-- inlining a tag filter means: a decided stream is judged by its recorded answer, an undecided one by the tag's
+    definition — whatever (stale) answer is recorded for it -/
+theorem inlinedAccept_sound (hasU : Bool) (accept : Nat) (h : accept < 16) (uncertain recorded defTruth : Bool)
+    (hu : hasU = false → uncertain = false) :
+    inlinedAccept hasU accept uncertain recorded defTruth =
+      tagAcceptSpec accept uncertain (if uncertain then defTruth else recorded) := by
+  have : ∀ (hasU : Bool) (a : Fin 16) (u m d : Bool), (hasU = false → u = false) →
+      inlinedAccept hasU a.val u m d = tagAcceptSpec a.val u (if u then d else m) := by decide
+  exact this hasU ⟨accept, h⟩ uncertain recorded defTruth hu
+
 end Pk.Proofs.Search
